@@ -1,13 +1,267 @@
-import CprocVerif.Model.PP
-import CprocVerif.Spec.MacroRef
+import CprocVerif.Lemmas.PPDefine
+import CprocVerif.Lemmas.PPEqual
+import CprocVerif.Lemmas.PPString
+import CprocVerif.Lemmas.PPFuel
+import CprocVerif.Lemmas.PPInv
 
-/-! # C12 — macro definition and expansion follow C11 6.10.3 on the implemented subset
-(theorems are being added; see Lemmas/PP*.lean) -/
+/-!
+# C12 — macro definition and expansion follow C11 6.10.3 on the implemented subset
+
+Property theorems about the model of `/repo/pp.c` (`Model/PP.lean`) against the reference of
+6.10.3 (`Spec/MacroRef.lean`).  No theorem bounds the number or size of macros, parameters,
+arguments or the length of the input.
+
+Vocabulary: `define st` is `define()` entered with `st.tok` = the token after `define`;
+`Macro.WF` collects what 6.10.3p5/p6 and 6.10.3.2p1 demand of a definition (plus "no `##`", which
+is outside the implemented subset); `Scanned t` = the token has a spelling exactly when its kind
+has one (what `scan()` delivers); `Spellable t` = its spelling is not empty and does not end in a
+blank; `InvC ctx ms d` = the hide-flag invariant of the context stack.
+-/
 
 namespace CprocVerif.C12
-open CprocVerif.PP
+open CprocVerif.PP CprocVerif.Spec CprocVerif.Gen.TokenKinds
 
-/-- out of fuel is the distinct result `Err.fuel` -/
-theorem exec_zero (c : Call) (st : St) : exec 0 c st = .error .fuel := rfl
+def tk (k : Kind) (lit : Option (List UInt8) := none) (space : Bool := false) : Tok := ⟨k, lit, space, false⟩
+def ident (s : List UInt8) (space : Bool := false) : Tok := ⟨.TIDENT, some s, space, false⟩
+def num (s : List UInt8) (space : Bool := false) : Tok := ⟨.TNUMBER, some s, space, false⟩
+def NL : Tok := ⟨.TNEWLINE, none, false, false⟩
+
+/-! ## 1. Definitions: what `define` rejects -/
+
+/-- Every definition `define` accepts is well formed (`Macro.WF`) and is afterwards found under
+its name, not hidden. -/
+theorem define_accepts_only_wellformed {st st' : St} (h : define st = .ok st') :
+    ∃ m, macroget st'.macros (st.tok.lit.getD []) = some m ∧ m.name = st.tok.lit.getD [] ∧ m.WF ∧ m.hide = false :=
+  define_wf h
+
+/-- `##` anywhere in a replacement list: rejected (the operator is not implemented). -/
+theorem define_rejects_hashhash {st st' : St} (h : define st = .ok st') :
+    ∃ m, macroget st'.macros (st.tok.lit.getD []) = some m ∧ ∀ t ∈ m.body, t.kind ≠ .THASHHASH := by
+  obtain ⟨m, h1, _, h3, _⟩ := define_wf h
+  exact ⟨m, h1, h3.noHashHash⟩
+
+/-- 6.10.3p5: `__VA_ARGS__` in the replacement list of a macro that is not variadic (the first
+token included, since `360707e`): rejected. -/
+theorem define_rejects_bad_va_args {st st' : St} (h : define st = .ok st') :
+    ∃ m, macroget st'.macros (st.tok.lit.getD []) = some m ∧
+      (macrovarargs m.func m.params = false → ∀ t ∈ m.body, ¬ (t.kind = .TIDENT ∧ t.lit = some vaName)) := by
+  obtain ⟨m, h1, _, h3, _⟩ := define_wf h
+  exact ⟨m, h1, h3.vaOnlyVariadic⟩
+
+/-- 6.10.3p6: two parameters of the same name (since `5e1cf9d`): rejected. -/
+theorem define_rejects_duplicate_parameter {st st' : St} (h : define st = .ok st') :
+    ∃ m, macroget st'.macros (st.tok.lit.getD []) = some m ∧
+      ((m.params.filter (fun p => !p.fvar)).map (·.name)).Nodup := by
+  obtain ⟨m, h1, _, h3, _⟩ := define_wf h
+  exact ⟨m, h1, h3.distinct⟩
+
+/-- 6.10.3.2p1: in a function-like macro a `#` that is not followed by a parameter (a `#` at the
+end of the replacement list included): rejected.  Stated on the replacement list in reverse
+(`RevOk`): every `#` has a parameter name right after it, up to the terminating new-line. -/
+theorem define_rejects_hash_without_parameter {st st' : St} (h : define st = .ok st') :
+    ∃ m, macroget st'.macros (st.tok.lit.getD []) = some m ∧
+      (m.func = true → ∃ e, (e.kind = .TNEWLINE ∨ e.kind = .TEOF) ∧ RevOk (pnames m.params) (e :: m.body.reverse)) := by
+  obtain ⟨m, h1, _, h3, _⟩ := define_wf h
+  exact ⟨m, h1, h3.hashParam⟩
+
+/-- in particular the replacement list of an accepted function-like macro does not end in `#` -/
+theorem define_rejects_trailing_hash {st st' : St} (h : define st = .ok st') :
+    ∃ m, macroget st'.macros (st.tok.lit.getD []) = some m ∧
+      (m.func = true → ∀ x r, m.body.reverse = x :: r → x.kind ≠ .THASH) := by
+  obtain ⟨m, h1, _, h3, _⟩ := define_wf h
+  refine ⟨m, h1, ?_⟩
+  intro hf x r hx
+  obtain ⟨e, he, hr⟩ := h3.hashParam hf
+  rw [hx] at hr
+  exact revOk_last_not_hash hr he
+
+/-- the call is diagnosed with exactly this class -/
+def failsWith (r : Except Err St) (e : Err) : Bool :=
+  match r with
+  | .error e' => e' == e
+  | .ok _ => false
+
+/-- the state in which `define()` runs for the line `#define <toks>` (the new-line included) -/
+def defState (toks : List Tok) (ms : List Macro := []) : St :=
+  { raw := toks.drop 1, macros := ms, tok := toks.headD NL }
+
+-- non-vacuity: `#define F(a, ...) a # a __VA_ARGS__` is accepted …
+example : (define (defState [ident b!"F", tk .TLPAREN, ident b!"a", tk .TCOMMA, tk .TELLIPSIS, tk .TRPAREN,
+    ident b!"a" true, tk .THASH none true, ident b!"a" true, ident b!"__VA_ARGS__" true, NL])).toBool = true := by
+  decide +kernel
+-- … and each violation is rejected with the diagnostic of its class
+example : failsWith (define (defState [ident b!"A", num b!"1" true, tk .THASHHASH none true, num b!"2" true, NL])) .hashhash = true := by decide +kernel
+example : failsWith (define (defState [ident b!"A", ident b!"__VA_ARGS__" true, NL])) .vaArgs = true := by decide +kernel
+example : failsWith (define (defState [ident b!"F", tk .TLPAREN, ident b!"x", tk .TCOMMA, ident b!"x", tk .TRPAREN,
+    ident b!"x" true, NL])) .dupParam = true := by decide +kernel
+example : failsWith (define (defState [ident b!"F", tk .TLPAREN, ident b!"x", tk .TRPAREN, tk .THASH none true,
+    ident b!"y", NL])) .hashNotParam = true := by decide +kernel
+example : failsWith (define (defState [ident b!"F", tk .TLPAREN, ident b!"x", tk .TRPAREN, ident b!"x" true,
+    tk .THASH none true, NL])) .hashIdent = true := by decide +kernel
+
+/-! ## 2. Redefinition: `macroequal` -/
+
+/-- **`macroequal` decides**: same kind of macro, same parameters (names, `...`, use flags), same
+sequence of tokens by class and spelling.  (For tokens shaped as `scan()` shapes them.) -/
+theorem macroequal_equiv (m1 m2 : Macro) (h1 : ∀ a ∈ m1.body, Scanned a) (h2 : ∀ b ∈ m2.body, Scanned b) :
+    macroequal m1 m2 = true ↔
+      (m1.func = m2.func ∧ (m1.func = true → m1.params = m2.params) ∧
+       m1.body.map Tok.key = m2.body.map Tok.key) :=
+  macroequal_iff m1 m2 h1 h2
+
+/-- the definition as the reference sees it -/
+def toDef (m : Macro) : MacroRef.MacroDef :=
+  { name := m.name, func := m.func, params := (m.params.filter (fun p => !p.fvar)).map (·.name),
+    variadic := m.params.any (·.fvar), body := m.body.map toP }
+
+/-- Full strength (6.10.3p2): a redefinition is accepted exactly when the two definitions are
+identical, *white-space separation included*.  False of the current tree: -/
+def macroequal_c11_full : Prop :=
+  ∀ m1 m2 : Macro, (∀ a ∈ m1.body, Scanned a) → (∀ b ∈ m2.body, Scanned b) → m1.params = m2.params →
+    (macroequal m1 m2 = true ↔ MacroRef.identical (toDef m1) (toDef m2) = true)
+
+def mA1 : Macro := { func := false, name := b!"A", body := [tk .TLPAREN none true, num b!"1", tk .TRPAREN] }
+def mA2 : Macro := { func := false, name := b!"A", body := [tk .TLPAREN none true, num b!"1" true, tk .TRPAREN none true] }
+
+/-- known finding `macroequal-ignores-space`: `#define A (1)` then `#define A ( 1 )` is accepted -/
+theorem macroequal_c11_counterexample : ¬ macroequal_c11_full := by
+  intro h
+  have := h mA1 mA2 (by decide) (by decide) rfl
+  revert this
+  decide +kernel
+
+/-- what does hold: acceptance is identity *up to* white-space separation … -/
+theorem macroequal_partial (m1 m2 : Macro) (h1 : ∀ a ∈ m1.body, Scanned a) (h2 : ∀ b ∈ m2.body, Scanned b)
+    (hp : m1.params = m2.params) :
+    macroequal m1 m2 = true ↔ MacroRef.identicalModSpace (toDef m1) (toDef m2) = true := by
+  rw [macroequal_iff m1 m2 h1 h2]
+  unfold MacroRef.identicalModSpace toDef
+  simp only [hp, List.map_map, Bool.and_eq_true, decide_eq_true_eq, and_true, implies_true, true_and]
+  have : (MacroRef.PTok.key ∘ toP) = Tok.key := by funext t; rfl
+  rw [this]
+
+/-- … so every benign redefinition is accepted (identical ⇒ accepted) … -/
+theorem benign_redefinition_accepted (m1 m2 : Macro) (h1 : ∀ a ∈ m1.body, Scanned a)
+    (h2 : ∀ b ∈ m2.body, Scanned b) (hp : m1.params = m2.params)
+    (hid : MacroRef.identical (toDef m1) (toDef m2) = true) : macroequal m1 m2 = true := by
+  rw [macroequal_partial m1 m2 h1 h2 hp]
+  unfold MacroRef.identical at hid
+  unfold MacroRef.identicalModSpace
+  simp only [Bool.and_eq_true, decide_eq_true_eq] at hid ⊢
+  refine ⟨hid.1, ?_⟩
+  generalize (toDef m1).body = a at hid
+  generalize (toDef m2).body = b at hid
+  have hs := hid.2
+  clear hid
+  cases a with
+  | nil => cases b with
+    | nil => rfl
+    | cons _ _ => simp [MacroRef.sameSpacing] at hs
+  | cons x xs => cases b with
+    | nil => simp [MacroRef.sameSpacing] at hs
+    | cons y ys =>
+      simp only [MacroRef.sameSpacing, Bool.and_eq_true, decide_eq_true_eq, List.all_eq_true] at hs
+      simp only [List.map_cons, List.cons.injEq]
+      refine ⟨hs.1.1, ?_⟩
+      apply List.ext_getElem
+      · simp [hs.2]
+      · intro i h1 h2
+        simp only [List.getElem_map]
+        have hz : (xs[i]'(by simpa using h1), ys[i]'(by simpa using h2)) ∈ xs.zip ys := by
+          rw [List.mem_iff_getElem]
+          exact ⟨i, by simp only [List.length_zip]; simp at h1 h2; omega, by simp⟩
+        exact (hs.1.2 _ hz).1
+
+/-- … and every redefinition that changes a token, the kind, or a parameter is rejected. -/
+theorem incompatible_redefinition_rejected (m1 m2 : Macro) (h1 : ∀ a ∈ m1.body, Scanned a)
+    (h2 : ∀ b ∈ m2.body, Scanned b)
+    (hd : m1.func ≠ m2.func ∨ (m1.func = true ∧ m1.params ≠ m2.params) ∨ m1.body.map Tok.key ≠ m2.body.map Tok.key) :
+    macroequal m1 m2 = false := by
+  cases h : macroequal m1 m2 with
+  | false => rfl
+  | true =>
+    have := (macroequal_iff m1 m2 h1 h2).mp h
+    rcases hd with hd | ⟨hf, hd⟩ | hd
+    · exact absurd this.1 hd
+    · exact absurd (this.2.1 hf) hd
+    · exact absurd this.2.2 hd
+
+example : macroequal mA1 mA1 = true := by decide +kernel
+example : macroequal mA1 { mA1 with body := [num b!"2"] } = false := by decide +kernel
+
+/-! ## 3. Stringification (6.10.3.2p2) -/
+
+/-- **The string literal built for `# parameter` is the 6.10.3.2p2 spelling** of the tokens fed
+to `stringize`: spellings in order, exactly one blank where white space separated two tokens,
+none at either end, a `\` before each `"` and `\` inside string literals and character constants. -/
+theorem stringize_correct (ts : List Tok) (hs : ∀ t ∈ ts, Spellable t) :
+    some (stringizeAll ts) = (MacroRef.stringizeRef (ts.map toP)).lit :=
+  stringizeAll_eq ts hs
+
+example : stringizeAll [ident b!"a" true, tk .TADD none true, ⟨.TSTRINGLIT, some b!"\"b\\n\"", true, false⟩, ident b!"c"]
+    = b!"\"a + \\\"b\\\\n\\\"c\"" := by decide +kernel
+example : ∀ t ∈ [ident b!"a" true, tk .TADD none true], Spellable t := by decide +kernel
+
+/-! ## 4. Painting, the hide flag, fuel -/
+
+/-- **A painted identifier is never expanded** (6.10.3.4p2, last sentence): `expand` on a token
+whose `hide` flag is set leaves the state alone and reports "not expanded", whatever the macro
+table and the context stack are. -/
+theorem painted_never_expands (n : Nat) (t : Tok) (st : St) (h : t.hide = true) :
+    exec (n + 1) (.expand t) st = .ok { st with rb := false, rt := t } := by
+  have ht : ({ t with hide := true } : Tok) = t := by cases t; simp_all
+  show expandBody (exec n) t st = _
+  unfold expandBody
+  split
+  · rfl
+  · split
+    · rw [ht]
+    · simp only [ht, ite_self, h, ↓reduceIte]
+
+example : (ident b!"A" false).hide = false := rfl
+example : exec 1 (.expand { ident b!"A" with hide := true }) { raw := [], macros := [mA1] }
+    = .ok { raw := [], macros := [mA1], rb := false, rt := { ident b!"A" with hide := true } } :=
+  painted_never_expands 0 _ _ rfl
+
+/-- **`macrodone` keeps "hidden ⇔ has a live frame"**: the loop at the head of `ctxnext` that pops
+exhausted frames preserves the invariant for every macro table, and changes nothing but flags. -/
+theorem hide_iff_active_pop (ctx : List Frame) (ms : List Macro) (d : Nat) (h : InvC ctx ms d) :
+    InvC (popDone ctx ms d).1 (popDone ctx ms d).2.1 (popDone ctx ms d).2.2 :=
+  (popDone_inv ctx ms d h).1
+
+/-- **`expand` keeps it**: pushing the replacement list of a macro of the table that is not hidden,
+setting its flag and counting it. -/
+theorem hide_iff_active_push {ctx : List Frame} {ms : List Macro} {d : Nat} {m : Macro} (toks : List Tok)
+    (h : InvC ctx ms d) (hm : m ∈ ms) (hh : m.hide = false) :
+    InvC (⟨toks, some m.name⟩ :: ctx) (setHide ms m.name true) (d + 1) :=
+  invC_push toks h hm hh
+
+example : InvC [] [mA1] 0 := ⟨by decide, by decide, by decide, rfl⟩
+
+/-- **Fuel monotonicity**: a call that completes — with a state or with a diagnostic other than
+"out of fuel" — gives the same result with any larger amount of fuel. -/
+theorem fuel_monotone (n k : Nat) (c : Call) (st : St) (h : exec n c st ≠ .error .fuel) :
+    exec (n + k) c st = exec n c st :=
+  exec_mono n k c st h
+
+/-- the same for the whole expanded token stream -/
+theorem fuel_monotone_run (n k : Nat) (st : St) (h : (run n st).2 ≠ some .fuel) :
+    run (n + k) st = run n st :=
+  run_mono n k st h
+
+example : (run 20 (St.init [ident b!"A", NL, ⟨.TEOF, none, false, false⟩] false)).2 ≠ some .fuel := by decide +kernel
+
+/-! ## 5. Argument count (6.10.3p4) -/
+
+/-- **A surplus argument is rejected, an empty one included** (since `bf7cc8d`): when the comma that
+ends the argument for the last parameter is met at invocation level outside parentheses, the
+invocation is diagnosed "too many arguments". -/
+theorem too_many_args_rejected (rec : Call → St → Res) (e : EF) (st : St)
+    (hlvl : st.depth ≤ e.depth) (hp : e.paren = 0) (ht : e.t.kind = .TCOMMA)
+    (hv : (e.m.params.getD e.i default).fvar = false) (hi : e.i + 1 = e.m.params.length) :
+    efLoopBody rec e st = .error .tooManyArgs := by
+  unfold efLoopBody efFinish
+  simp only [List.getD_eq_getElem?_getD] at hv
+  simp [ht, hlvl, hp, hv, hi]
 
 end CprocVerif.C12
